@@ -1012,6 +1012,30 @@ package scipipe
 //@ func (*Sink).paramIn(p) (res)
 //@   props C16
 //@   ensures def: "param_sink_in" in p.inParamPorts && res == p.inParamPorts["param_sink_in"]
+// sink.go Run (C05): the sink is the default driver; Run returns when it returns. It starts one draining go-routine per
+// connected in-port; each go-routine puts its token on `merged` only after it has seen its port's channel closed and
+// empty (drain$1, drain$2), and Run takes exactly as many tokens as it started go-routines before it returns
+// (waits-for-every-drainer). Each go-routine has exactly one send (not in a loop), so "as many tokens as go-routines"
+// means one token from each: this last counting step is a meta-argument (see DESIGN.md), the rest are obligations.
+//@ func (*Sink).Run(p)
+//@   props C05
+//@   modifies chan, cells
+//@   atmakechan fresh-chan: chanRecvN($ch) == 0 && chanSentN($ch) == 0 && !chanClosed($ch)
+//@   atcall builtin.close all-tokens-taken[C05]: $arg0 == merged && chanRecvN(merged) == ite(p.inPorts["sink_in"].ready, 1, 0) + ite(p.inParamPorts["param_sink_in"].ready, 1, 0)
+//@   ensures waits-for-every-drainer[C05]: chanRecvN(merged) == ite(p.inPorts["sink_in"].ready, 1, 0) + ite(p.inParamPorts["param_sink_in"].ready, 1, 0)
+//@   ensures merged-unbuffered[C05]: chanCap(merged) == 0
+//@ func (*Sink).Run$1()
+//@   props C05
+//@   modifies chan
+//@   atsend token-only-after-drain[C05]: $ch == merged && chanRecvN(p.inPorts["sink_in"].Chan) == chanTotal(p.inPorts["sink_in"].Chan)
+//@   ensures one-token[C05]: chanSentN(merged) == old(chanSentN(merged)) + 1
+//@   loop 0 invariant stable: p == old(p) && merged == old(merged) && chanSentN(merged) == old(chanSentN(merged))
+//@ func (*Sink).Run$2()
+//@   props C05
+//@   modifies chan
+//@   atsend token-only-after-drain[C05]: $ch == merged && chanRecvN(p.inParamPorts["param_sink_in"].Chan) == chanTotal(p.inParamPorts["param_sink_in"].Chan)
+//@   ensures one-token[C05]: chanSentN(merged) == old(chanSentN(merged)) + 1
+//@   loop 0 invariant stable: p == old(p) && merged == old(merged) && chanSentN(merged) == old(chanSentN(merged))
 //@ func (*Sink).From(p, outPort)
 //@   props C16
 //@   modifies map[string]*OutPort, outPort.RemotePorts[*], InPort.ready, outPort.ready
